@@ -48,7 +48,7 @@ PAIR_POOL = ('null', 'neg1', 'one', 'p64', 'nan', 'str_empty', 'str_a', 'bin_una
 
 
 # ------------------------------------------------------------------------------------------------ pool
-def build_pool(ctx, optkeys):
+def build_pool(ctx, optkeys, structkeys=()):
     """[(name, jq expr, inp, benign, pair, base)]; ids are 1-based positions."""
     mp3 = None
     p = os.path.join(vlib.REPO, 'pkg/interp/testdata/test.mp3')
@@ -98,6 +98,11 @@ def build_pool(ctx, optkeys):
     for k in optkeys:
         for vn, ve in ext_vals:
             B.append(dict(name='o_%s_%s' % (k, vn), expr='{%s: %s}' % (json.dumps(k), ve), inp=True, benign=False, pair=False, base=False))
+        # structured members (tables of ranges / numbers) with out-of-range bounds, with colour on: colour and decorator tables are only
+        # built when color is true, which no test sets. Only for members whose default value is an array or object.
+        for vn, ve in [] if k not in structkeys else (('ranges', '[{ranges: [[-1, 256]], value: "red"}]'), ('nums', '[-1, 256, 65536]'), ('objnum', '{a: -1, b: 256}')):
+            extra = '' if k == 'color' else ', color: true'
+            B.append(dict(name='s_%s_%s' % (k, vn), expr='{%s: %s%s}' % (json.dumps(k), ve, extra), inp=True, benign=False, pair=False, base=False))
     for i, b in enumerate(B):
         b['id'] = i + 1
         b['pair'] = b['name'] in PAIR_POOL
@@ -328,7 +333,9 @@ def run(ctx):
     kexpr = '[(options | keys[]), (_registry.formats[] | (.decode_in_arg // {}) | keys[])] | unique | %s + tojson' % MARK
     r = ctx.run([R.bin, 'eval1', kexpr], check=True, timeout=120)
     optkeys = sorted(set(json.loads(r.stdout)) | set(STATIC_OPT_KEYS))
-    pool = build_pool(ctx, optkeys)
+    sexpr = '[options | to_entries[] | select((.value | type) == "array" or (.value | type) == "object") | .key] | %s + tojson' % MARK
+    structkeys = set(json.loads(ctx.run([R.bin, 'eval1', sexpr], check=True, timeout=120).stdout))
+    pool = build_pool(ctx, optkeys, structkeys)
     base_ids = [p['id'] for p in pool if p['base']]
     ctx.cov['pool'] = dict(base=[p['name'] for p in pool if p['base']], benign_defaults=[p['name'] for p in pool if p['benign']],
                            pair_pool=[p['name'] for p in pool if p['pair']], extended_option_objects=len(pool) - len(base_ids),
@@ -411,10 +418,14 @@ def run(ctx):
             vals[p] = v
             ocalls.append(dict(f=f['i'], pos=p, vals=vals, arm='options'))
     stride = 1
+    sids = {p['id'] for p in pool if p['name'].startswith('s_')}
+    scalls = [c for c in ocalls if c['vals'][c['pos']] in sids]       # few (structured members only): all of them run
+    ocalls = [c for c in ocalls if c['vals'][c['pos']] not in sids]
     if len(ocalls) > cfg['opt_budget']:
         stride = -(-len(ocalls) // cfg['opt_budget'])
         ocalls = ocalls[rng.randrange(stride)::stride]
-    ctx.cov['option_arm'] = dict(positions=len(optpos), calls=len(ocalls), stride=stride)
+    ocalls = scalls + ocalls
+    ctx.cov['option_arm'] = dict(positions=len(optpos), calls=len(ocalls), stride=stride, structured_member_calls=len(scalls))
     calls += ocalls
 
     # ---- 5. thorough: all pairs over the pair pool for arity <= 2 (others benign)
